@@ -757,3 +757,83 @@ pub fn gen_matrix(out: &mut Vec<String>, st: &mut CaseStats) -> (u64, u64) {
     }
     (cells, unreachable)
 }
+
+// exhaustive receive-gating matrix (C17): role x version x status x 16 type nibbles
+fn recv_cell<R: role::RoleType>(role_n: u64, cver: u64, status: u64, as_client: bool, nib: u64, level: u64, st: &mut CaseStats) -> Option<String> {
+    let version = match cver {
+        4 => Version::V3_1_1,
+        5 => Version::V5_0,
+        _ => Version::Undetermined,
+    };
+    let mut rng = Rng::new(11);
+    let mut run = Runner::<R>::new(version, role_n, cver);
+    run.out.insert(0, 1);
+    let wire = if cver == 0 { if level == 5 { 5 } else { 4 } } else { cver };
+    let connect: Packet = mk_connect(&mut rng, wire);
+    let connack: Packet = if wire == 4 {
+        v3_1_1::Connack::builder().session_present(false).return_code(ConnectReturnCode::Accepted).build().unwrap().into()
+    } else {
+        v5_0::Connack::builder().session_present(false).reason_code(ConnectReasonCode::Success).build().unwrap().into()
+    };
+    if status >= 1 {
+        if as_client {
+            run.apply(&Op::Send(connect.clone()), st);
+        } else {
+            run.apply(&Op::Recv(bytes_of(&connect)), st);
+        }
+    }
+    if status >= 2 {
+        if as_client {
+            run.apply(&Op::Recv(bytes_of(&connack)), st);
+        } else {
+            run.apply(&Op::Send(connack.clone()), st);
+        }
+    }
+    if run.conn.as_ref().unwrap().verif_state().status as u64 != status {
+        return None;
+    }
+    let mut frame: Vec<u8> = match kind_packet(&mut rng, wire, nib, 1) {
+        Some(p) if nib >= 1 => bytes_of(&p),
+        _ => vec![(nib as u8) << 4, 0],
+    };
+    if nib == 1 && cver == 0 && level != 4 && level != 5 && frame.len() > 8 {
+        frame[8] = level as u8; // protocol level byte of the CONNECT
+    }
+    run.apply(&Op::Recv(frame), st);
+    Some(run.line())
+}
+
+pub fn gen_recv_matrix(out: &mut Vec<String>, st: &mut CaseStats) -> u64 {
+    let mut cells = 0;
+    for role_n in 0..3u64 {
+        for cver in [4u64, 5, 0] {
+            for status in 0..3u64 {
+                if cver == 0 && status > 0 {
+                    continue;
+                }
+                let sides: &[bool] = match role_n {
+                    0 => &[true],
+                    1 => &[false],
+                    _ => &[true, false],
+                };
+                for as_client in sides {
+                    for nib in 0..16u64 {
+                        let levels: &[u64] = if cver == 0 && nib == 1 { &[4, 5, 3, 6] } else { &[4] };
+                        for level in levels {
+                            let line = match role_n {
+                                0 => recv_cell::<role::Client>(role_n, cver, status, *as_client, nib, *level, st),
+                                1 => recv_cell::<role::Server>(role_n, cver, status, *as_client, nib, *level, st),
+                                _ => recv_cell::<role::Any>(role_n, cver, status, *as_client, nib, *level, st),
+                            };
+                            if let Some(l) = line {
+                                cells += 1;
+                                out.push(l);
+                            }
+                        }
+                    }
+                }
+            }
+        }
+    }
+    cells
+}
